@@ -183,7 +183,7 @@ impl FixtureDatabase {
 /*@ extract src/fixtures/resolver.rs find_closest_definition
 @tags C01 C04 C05 C16 C17 C20
 @ret r
-@closure 1 |_d: &FixtureDefinition| -> (b: bool) ensures b == true
+@closure find_closest_definition_with_filter:1 |_d: &FixtureDefinition| -> (b: bool) ensures b == true
 @sig
     ensures resolve_post(r, bucket(self.defs(), fixture_name@), pv(file_path), self.prov(fixture_name@), fs_true()),
 @*/
@@ -191,7 +191,7 @@ impl FixtureDatabase {
 /*@ extract src/fixtures/resolver.rs find_closest_definition_excluding
 @tags C02 C04 C20
 @ret r
-@closure 1 |def: &FixtureDefinition| -> (b: bool) ensures b == fs_excl(opt_ref_dv(exclude))(dv(def))
+@closure find_closest_definition_with_filter:1 |def: &FixtureDefinition| -> (b: bool) ensures b == fs_excl(opt_ref_dv(exclude))(dv(def))
 @derefcmp def excluded
 @sig
     ensures resolve_post(r, bucket(self.defs(), fixture_name@), pv(file_path), self.prov(fixture_name@), fs_excl(opt_ref_dv(exclude))),
